@@ -1435,6 +1435,17 @@ KERNELS += [
          selfmut={"optimize_observations": (0, "optimizeObservations {0}")},
          mutmethods={"gen_vertices": "cbox_gen_vertices cos sin {0}", "swap": "SimVerif.Gen.L.listSwap {0} {1} {2}",
                      "update_history": "applyHistV {0} (SimVerif.Gen.L.visual_update_history {0}.history_length {0}.track_length {0}.observed_boxes {0}.predicted_boxes {0}.observed_features {1} {2} {3})"}),
+    dict(group="OptimizeV", name="visual_metric_whole", file="trackers/visual_sort/metric.rs", impl=r"impl ObservationMetric<VisualAttributes, VisualObservationAttributes> for VisualMetric \{", fn="metric",
+         sig="{F : Type} (toofar : UBox α → UBox α → Bool) (inter : UBox α → UBox α → α) (kfdist : α × α → UBox α → α) (chi : Nat → α) (upper : α) (euclidean cosine : F → F → α)\n    (positional_kind : PosMetric α) (visual_kind : VisualMetric.Kind α) (positional_min_confidence visual_minimal_area visual_minimal_quality_use visual_minimal_own_area_percentage_use : α)\n    (visual_minimal_track_length collected : Nat) (wpos wvel : α) (cand trk : Option (VOA α) × Option F) : Option (Option α × Option α)",
+         imperative=True, unwrap_panics=True,
+         fieldpath={"mq.candidate_observation": "cand", "mq.track_observation": "trk", "mq.track_attrs": "()",
+                    "self.opts.visual_minimal_quality_use": "visual_minimal_quality_use", "self.opts.visual_minimal_own_area_percentage_use": "visual_minimal_own_area_percentage_use"},
+         method={"attr": "{0}.1", "as_ref": "{0}", "feature": "{0}.2", "bbox_opt": "{0}.bbox", "visual_quality": "voa_visual_quality {0}",
+                 "own_area_percentage_opt": "voa_own_area_percentage_opt {0}",
+                 "positional_metric": "v_positional_metric toofar inter kfdist chi upper positional_kind positional_min_confidence (Option.map toU {1}) (Option.map toU {2}) wpos wvel",
+                 "feature_can_be_used": "v_feature_can_be_used visual_minimal_area (Option.map toU {1}) {2} {3} {4} {5}",
+                 "visual_metric": "v_visual_metric euclidean cosine visual_kind visual_minimal_track_length collected {1} {2}"},
+         call={"Some": "some {0}"}, path={"None": "none"}),
     dict(group="OptimizeV", name="visual_postprocess_distances", file="trackers/visual_sort/metric.rs", impl=r"impl ObservationMetric<VisualAttributes, VisualObservationAttributes> for VisualMetric \{",
          fn="postprocess_distances", sig="{M : Type} (unfiltered : List (MOk M)) : List (MOk M)",
          method={"into_iter": "{0}", "filter": "List.filter {1} {0}", "collect": "{0}", "is_some": "Option.isSome {0}"}),
